@@ -13,6 +13,9 @@ import (
 
 type checkFn func(c *Ctx, r *Report)
 
+// verifDir is where spec, fixture, known findings and evidence live.
+var verifDir = "/verif"
+
 var registry = map[string]checkFn{}
 
 func register(id string, f checkFn) { registry[id] = f }
@@ -23,6 +26,7 @@ func main() {
 	repo := flag.String("repo", "/repo", "repository to analyse")
 	verif := flag.String("verif", "", "verif directory (default: parent of the binary's dir, else /verif)")
 	replay := flag.String("replay", "", "replay file written by an earlier run")
+	out := flag.String("out", "", "directory that receives evidence/ (default: the verif directory)")
 	list := flag.Bool("list", false, "list registered properties")
 	flag.Parse()
 
@@ -51,6 +55,10 @@ func main() {
 				*verif = d
 			}
 		}
+	}
+	verifDir = *verif
+	if *out == "" {
+		*out = *verif
 	}
 	seed := 0
 	if s := os.Getenv("VERIF_SEED"); s != "" {
@@ -128,7 +136,7 @@ func main() {
 			fmt.Printf("VIOLATION property=%s replay=%s\n", id, *replay)
 			os.Exit(1)
 		}
-		if code := r.finish(c, *verif, *tier, seed, wall); code > exit {
+		if code := r.finish(c, *verif, *out, *tier, seed, wall); code > exit {
 			exit = code
 		}
 	}
